@@ -1,14 +1,33 @@
 (* Properties/C19.v — combining search criteria yields their intersection (statements only). *)
 From Coq Require Import Sorting.Permutation.
 From GoImap.Base Require Import Bytes.
-From GoImap.Model Require Import NumSet Search.
-From GoImap.Proofs Require Import SearchSpec SearchProofs.
+From GoImap.Model Require Import NumSet Search SearchModSeq.
+From GoImap.Proofs Require Import SearchSpec SearchProofs SearchModSeqProofs.
 Open Scope Z_scope.
 
 Theorem C19_and_intersection : forall a b m, 0 <= m_size m ->
   matches m (and_ a b) = matches m a && matches m b.
 Proof. exact and_intersection. Qed.
 Print Assumptions C19_and_intersection.
+
+(* SearchCriteria.And with the ModSeq field (CONDSTORE), at every nesting level, for every
+   assignment [mq] of mod-sequences to metadata entries; [and_] above is its restriction to the
+   ModSeq-free criteria the server parser builds (C19_and_modseq_free) *)
+Theorem C19_and_intersection_modseq : forall mq a b m, 0 <= m_size m ->
+  xmatches mq m (xand a b) = xmatches mq m a && xmatches mq m b.
+Proof. exact xand_intersection. Qed.
+Print Assumptions C19_and_intersection_modseq.
+
+Theorem C19_and_keeps_modseq : forall mq a b m v n t, 0 <= m_size m ->
+  (match a with XCrit _ _ _ _ _ _ _ _ _ _ _ _ _ q _ _ => q end = Some (v, n, t) \/
+   match b with XCrit _ _ _ _ _ _ _ _ _ _ _ _ _ q _ _ => q end = Some (v, n, t)) ->
+  (mq n t < v)%N -> xmatches mq m (xand a b) = false.
+Proof. exact xand_keeps_modseq. Qed.
+Print Assumptions C19_and_keeps_modseq.
+
+Theorem C19_and_modseq_free : forall a b, xand (embed a) (embed b) = embed (and_ a b).
+Proof. exact xand_embed. Qed.
+Print Assumptions C19_and_modseq_free.
 
 Theorem C19_keys_conjunction : forall ks m, 0 <= m_size m -> forallb wf_key ks = true ->
   matches m (parse_keys ks) = forallb (key_matches m) ks.
@@ -29,4 +48,13 @@ Example C19_nonvacuous :
   matches (ex_msg 50) (and_ (size_crit 0 100) (size_crit 5 0)) = true /\
   matches (ex_msg 150) (and_ (size_crit 0 100) (size_crit 5 0)) = false /\
   matches (ex_msg 50) (parse_keys [KSmaller 100; KLarger 5; KSince 100; KNot (KFlag SEEN)]) = true.
+Proof. vm_compute. repeat split. Qed.
+
+(* ModSeq: both operands constrain different metadata entries; the message satisfies one only *)
+Example C19_modseq_nonvacuous :
+  let a := XCrit [] [] 0 0 0 0 [] [] [] [] [] 0 0 (Some (5%N, [], [])) [] [] in
+  let b := XCrit [] [] 0 0 0 0 [] [] [] [] [] 0 0 (Some (42%N, s2b "/flags/\seen", s2b "priv")) [] [] in
+  let mq := fun n _ => match n with [] => 10%N | _ => 40%N end in
+  xmatches mq (ex_msg 50) a = true /\ xmatches mq (ex_msg 50) b = false /\
+  xmatches mq (ex_msg 50) (xand a b) = false /\ xmatches (fun _ _ => 50%N) (ex_msg 50) (xand a b) = true.
 Proof. vm_compute. repeat split. Qed.
